@@ -943,6 +943,28 @@ def huffman_reference_cost(weights):
     return cost
 
 
+def huffman_reference_lengths(weights):
+    """code lengths of the Huffman code with ties broken by node index (leaves 0..n-1 in symbol order, then inner
+    nodes in the order of their creation) - the rule the documentation promises"""
+    import heapq
+    n = len(weights)
+    h = [(w, i) for i, w in enumerate(weights)]
+    heapq.heapify(h)
+    parent = {}
+    nxt = n
+    while len(h) > 1:
+        a = heapq.heappop(h); b = heapq.heappop(h)
+        parent[a[1]] = nxt; parent[b[1]] = nxt
+        heapq.heappush(h, (a[0] + b[0], nxt)); nxt += 1
+    out = []
+    for i in range(n):
+        d, x = 0, i
+        while x in parent:
+            x = parent[x]; d += 1
+        out.append(d)
+    return out
+
+
 def run_symbol(max_len):
     """C15 / C16 through the Python front end: Huffman trees from every short weight vector, stack and queue coders"""
     failures, n = [], 0
@@ -953,9 +975,14 @@ def run_symbol(max_len):
     S = constriction.symbol
     H = S.huffman
     letters = [0.0, 1.0, 2.0, 3.0, 0.5, 1e-30, -1.0, float("nan"), float("inf")]
+    # longer vectors of small integers: sums of subtrees tie with single weights (2 + 3 == 5)
+    tied = [tuple(float(x) for x in t) for kk in (4, 5) for t in itertools.product([1, 2, 3, 4, 5], repeat=kk)] if max_len >= 3 else []
+    if max_len >= 4:
+        tied += [tuple(float(x) for x in t) for t in itertools.product([1, 2, 4, 7], repeat=6)]
     with Quiet():
-        for k in range(1, max_len + 1):
-            for wts in itertools.product(letters, repeat=k):
+        for kk in list(range(1, max_len + 1)) + [0]:
+            for wts in (itertools.product(letters, repeat=kk) if kk else tied):
+                k = len(wts)
                 for dt in (np.float32, np.float64):
                     n += 1
                     arr = np.array(wts, dtype=dt)
@@ -981,10 +1008,18 @@ def run_symbol(max_len):
                         kraft = sum(2.0 ** -l for l in lens)
                         if kraft != 1.0 or min(lens) < 1:
                             fail("Python front end | Huffman code | Kraft sum is not one", f"{wts}: lengths {lens}")
+                        # exact tie-breaking: the lengths are those of the (weight, index) rule, computed on the values
+                        # the constructor received (in the array's own precision)
+                        if all(math.isfinite(x) and x >= 0 for x in wts):
+                            ref_lens = huffman_reference_lengths([arr.dtype.type(x) for x in arr])
+                            if ref_lens != lens:
+                                fail("Python front end | Huffman code | ties are not broken by symbol index (code lengths differ from the (weight, index) rule)", f"{wts} as {arr.dtype}: lengths {lens}, rule gives {ref_lens}")
                         cost = sum(float(arr[i]) * lens[i] for i in range(k))
                         ref = huffman_reference_cost([float(x) for x in arr]) if all(math.isfinite(x) and x >= 0 for x in wts) else cost
                         if abs(cost - ref) > 1e-6 * max(ref, 1e-300) + 1e-30:
                             fail("Python front end | Huffman code | not optimal", f"{wts}: lengths {lens} cost {cost}, optimum {ref}")
+                    if kk == 0:
+                        continue    # (the long tied vectors are there for the code lengths only)
                     # every message of up to 3 symbols over the alphabet (capped at 3 letters) through both coders
                     alpha = list(range(min(k, 3)))
                     for msg in small_messages(alpha, 3):
